@@ -119,7 +119,12 @@ func scenario(t *testing.T, idx int64, r *rand.Rand) {
 	var rec *inject.RecLimit
 	var algo any = "scripted"
 	initial := 1 + r.IntN(20)
-	if r.IntN(3) == 0 {
+	var settable *limit.SettableLimit // an algorithm whose estimate moves between windows (set from outside), never inside OnSample
+	if r.IntN(6) == 0 {
+		settable = limit.NewSettableLimit("c05", initial, nil)
+		rec = inject.NewWrappedLimit(settable)
+		algo = "settable (estimate set out of band between windows)"
+	} else if r.IntN(3) == 0 {
 		spec := limgen.Gen(r, []string{"aimd", "gradient2", "vegas"}[r.IntN(3)], limgen.Opts{})
 		rec = inject.NewWrappedLimit(spec.New(nil, "c05"))
 		algo = spec
@@ -131,7 +136,7 @@ func scenario(t *testing.T, idx int64, r *rand.Rand) {
 	}
 	sk := buildStack(r, 1+r.IntN(30))
 	windowSize := 10 + r.IntN(4)
-	concurrent := r.IntN(4) == 0
+	concurrent := r.IntN(4) == 0 && settable == nil
 	cfg := rt.J{"strategy": sk.name, "fractions_of_32": sk.nums, "algorithm": algo, "window_size": windowSize, "concurrent": concurrent, "initial_estimate": rec.EstimatedLimit()}
 	if algo == "scripted" {
 		cfg["estimate_trajectory_head"] = traj[:10]
@@ -254,6 +259,10 @@ func scenario(t *testing.T, idx int64, r *rand.Rand) {
 				}
 				if len(held) == 0 {
 					continue
+				}
+				if settable != nil && r.IntN(6) == 0 {
+					settable.SetLimit(traj[r.IntN(len(traj))])
+					rt.Count("out_of_band_estimate_changes", 1)
 				}
 				time.Sleep(time.Duration(1 + r.IntN(20)))
 				l := held[0]
